@@ -24,7 +24,7 @@
   __CPROVER_loop_invariant(mon_on ==> (mon_phase == PH_TOKENS && in_string == mon_q)) \
   __CPROVER_loop_invariant(g_wfail == __CPROVER_loop_entry(g_wfail)) \
   __CPROVER_loop_invariant(g_diag == __CPROVER_loop_entry(g_diag)) \
-  __CPROVER_loop_invariant(g_lines_listed == __CPROVER_loop_entry(g_lines_listed)) \
+  __CPROVER_loop_invariant(g_lines_listed == __CPROVER_loop_entry(g_lines_listed) && g_file_failures == __CPROVER_loop_entry(g_file_failures)) \
   __CPROVER_loop_invariant(orig_file_pos <= file_pos && file_pos <= orig_file_pos + (long)mon_i) \
   __CPROVER_decreases(len)
 #endif
@@ -38,7 +38,7 @@
   __CPROVER_loop_invariant(g_lines_listed == fmon_lines && fmon_lines < (1ul << 38) + g_pos) \
   __CPROVER_loop_invariant(indent == mon_indent_run && -4 * (long)g_pos <= indent && indent <= 4 * (long)g_pos) \
   __CPROVER_loop_invariant(g_wfail == __CPROVER_loop_entry(g_wfail)) \
-  __CPROVER_loop_invariant(!g_read_error_happened) \
+  __CPROVER_loop_invariant(!g_read_error_happened && g_file_failures == __CPROVER_loop_entry(g_file_failures)) \
   __CPROVER_decreases(g_len - g_pos)
 
 #ifndef VERIF_LOOP_decode_le
@@ -88,14 +88,15 @@
   __CPROVER_loop_invariant(1 <= verif_optind && verif_optind <= argc) \
   __CPROVER_loop_invariant(0 <= listo && listo <= 7) \
   __CPROVER_loop_invariant(dialect < NUM_DIALECTS) \
-  __CPROVER_loop_invariant(g_wfail == __CPROVER_loop_entry(g_wfail) && g_diag == __CPROVER_loop_entry(g_diag))
+  __CPROVER_loop_invariant(g_wfail == __CPROVER_loop_entry(g_wfail) && g_diag == __CPROVER_loop_entry(g_diag) && g_file_failures == __CPROVER_loop_entry(g_file_failures))
 #endif
 #ifndef VERIF_LOOP_main_files
 #define VERIF_LOOP_main_files \
   __CPROVER_assigns(verif_optind, exitval, G, GL, GF) \
   __CPROVER_loop_invariant(1 <= verif_optind && verif_optind <= argc) \
   __CPROVER_loop_invariant(exitval == 0 || exitval == 1) \
-  __CPROVER_loop_invariant(exitval == 0 ==> (g_wfail == __CPROVER_loop_entry(g_wfail))) \
+  __CPROVER_loop_invariant(exitval == 0 ==> (g_wfail == __CPROVER_loop_entry(g_wfail) && g_file_failures == __CPROVER_loop_entry(g_file_failures))) \
+  __CPROVER_loop_invariant(g_file_failures <= __CPROVER_loop_entry(g_file_failures) + 2ul * (unsigned long)verif_optind) \
   __CPROVER_loop_invariant(exitval == 1 ==> g_diag > __CPROVER_loop_entry(g_diag)) \
   __CPROVER_loop_invariant(g_diag >= __CPROVER_loop_entry(g_diag) && g_diag <= __CPROVER_loop_entry(g_diag) + 32ul * (unsigned long)verif_optind) \
   __CPROVER_decreases(argc - verif_optind)
